@@ -3,6 +3,36 @@
 HOOK_COMMITS = []   # filled as hook commits are made in /repo
 
 CHECKS = {
+    "C03": dict(
+        category="model_checking",
+        text=("Project.tla: TLC explores all interleavings of one-chromosome down-sampling steps and checks closed form = "
+              "composition (confluence), two-step = direct, mass, sign, identity, commutation with marginalization; every "
+              "coefficient of every operator in the grid and exact large-size rows are compared with Scs::project and sfs view."),
+        design_ref="DESIGN.md section 3 (C03)",
+        note=("Grid exhaustive in the bound (quick: 1 axis n<=8, 2 axes n<=3; thorough: 1 axis n<=12, 2 axes n<=5, 3-4 axes n<=2); "
+              "one-axis sizes up to 4000 are samples. Trusted: TLC, Q.class (BigInteger), harness f64 evaluation of linear forms."),
+        technique="TLA+ down-sampling machine, exact rational operator matrices from TLC, coefficient-wise replay on the implementation",
+    ),
+    "C04": dict(
+        category="model_checking",
+        text=("Marginalize.tla: every order of one-axis removals from every shape in the bound; path independence, equality with the "
+              "declarative sum, mass, and the as-coded validate/sort/shift operator are TLC invariants; every path and every probe "
+              "(valid or invalid axis sequence) is replayed on Spectrum::marginalize and `sfs view -m/-M`."),
+        design_ref="DESIGN.md section 3 (C04)",
+        note=("Exhaustive in the bound (quick: 1-4 axes lengths 1-3; thorough: 1-5 axes lengths 1-3 plus an unequal-length catalogue "
+              "up to length 6). Trusted: TLC, harness evaluation."),
+        technique="TLA+ axis-removal machine with diamond property, TLC enumeration of paths, replay on the implementation",
+    ),
+    "C05": dict(
+        category="model_checking",
+        text=("Fold.tla: sequences of fold/mirror on symbolic spectra; declarative fold = as-coded fold, mass (fill 0), idempotence, "
+              "polarity symmetry and 'lower cells are fill' are TLC invariants in every state; every behaviour is replayed on "
+              "Spectrum::fold for all four fills and on `sfs fold`."),
+        design_ref="DESIGN.md section 3 (C05)",
+        note=("Exhaustive in the bound (quick: 1-3 axes lengths 1-4, 3 ops; thorough: 1-3 axes lengths 1-7 with 3 ops, 1-4 axes "
+              "lengths 1-5 with 2 ops). Trusted: TLC, harness mirror/evaluation."),
+        technique="TLA+ fold/mirror machine over symbolic linear forms, TLC invariants, behaviour replay on the implementation",
+    ),
     "C19": dict(
         category="model_checking",
         text=("ArrayApi.tla models indexing, axis views and the three iterators as state machines; TLC checks "
